@@ -85,6 +85,27 @@ def multi_file(ctx, lz4c, d):
             ctx.violation("C20:several-files:%s" % ("uncompress" if "uncompress of" in bad else "compress"), bad, {"kind": "c20-multi", "order": order, "what": bad})
             return
     ctx.extra["several_files_invocations"] = True
+    # a file named through a symbolic link: the permission bits are those of the file, not of the link
+    wd = os.path.join(d, "symlink")
+    os.makedirs(wd)
+    old = os.umask(0)
+    try:
+        for mode in (0o600, 0o640, 0o444):
+            real, link = os.path.join(wd, "real%o.dat" % mode), "link%o.dat" % mode
+            open(real, "wb").write(datas[1][:70000])
+            os.chmod(real, mode)
+            os.symlink(real, os.path.join(wd, link))
+            p = subprocess.run([lz4c, "compress", "-size", "64K", link], cwd=wd, stdout=subprocess.PIPE, stderr=subprocess.PIPE, timeout=600)
+            zp = os.path.join(wd, link + ".lz4")
+            zmode = stat.S_IMODE(os.stat(zp).st_mode) if os.path.exists(zp) else -1
+            ctx.evaluations += 1
+            ctx.distinct += 1
+            if zmode != mode:
+                ctx.violation("C20:symlink:mode", "compress of a file named through a symbolic link: %s.lz4 has mode %o, the file has %o (exit %d)" % (link, zmode, mode, p.returncode),
+                              {"kind": "c20-multi", "what": "symlink", "mode": mode, "zmode": zmode})
+                break
+    finally:
+        os.umask(old)
 
 
 def run_one(lz4c, b, d, case):
